@@ -1002,6 +1002,15 @@ n(["C17"], "subscriber-key-local", "channelsubscriptions/channelsubscriptions.go
   "	if st := state.Status(); channels.IsChannelTerminated(st) {\n		cs.subscriptionsLk.Lock()\n		delete(cs.subscriptions, state.ChannelID())\n		cs.subscriptionsLk.Unlock()\n	}",
   "status read into a local")
 
+n(["C01", "C03"], "extract-responder-completion", EV,
+  "	// otherwise, process as responder\n	log.Infow(\"received OnChannelCompleted, will send completion message to initiator\", \"chid\", chid)\n",
+  "	// otherwise, process as responder\n	return m.completeAsResponder(chid, chst)\n}\n\nfunc (m *manager) completeAsResponder(chid datatransfer.ChannelID, chst datatransfer.ChannelState) error {\n	log.Infow(\"received OnChannelCompleted, will send completion message to initiator\", \"chid\", chid)\n",
+  "responder half of OnChannelCompleted extracted into a helper")
+n(["C04", "C18"], "extract-channel-creation", RR,
+  "	// create the channel\n	var dataSender, dataReceiver peer.ID",
+  "	return m.createAcceptedChannel(chid, incoming, result, stor, voucher)\n}\n\nfunc (m *manager) createAcceptedChannel(chid datatransfer.ChannelID, incoming datatransfer.Request, result datatransfer.ValidationResult, stor datamodel.Node, voucher datatransfer.TypedVoucher) (datatransfer.ValidationResult, error) {\n	var err error\n	// create the channel\n	var dataSender, dataReceiver peer.ID",
+  "channel creation half of acceptRequest extracted into a helper")
+
 by = collections.defaultdict(list)
 for x in M:
     p = x.pop("prop")
